@@ -1,0 +1,14 @@
+//go:build verif
+
+// Contracts for the exovc verifier (/verif). Comment-only: with the tag off this file is not part
+// of the package, with the tag on it declares nothing.
+package keeper
+
+//@ define operatorInfoRaw(c, addr) = get(c, "operator", cat(g("x/operator/types.KeyPrefixOperatorInfo"), addr))
+
+//@ func (Keeper).IsOperator
+//@   ensures[C03.isop.spec] result == (operatorInfoRaw(ctx, addr) != nil)
+
+// C03: completion height = start height + the unbonding constant (wrap-around of uint64 included)
+//@ func (Keeper).GetUnbondingExpirationBlockNumber
+//@   ensures[C03.guebn.spec] result == wrapu(startHeight + g("x/operator/types.UnbondingExpiration"), 18446744073709551616)
